@@ -10,7 +10,10 @@ Local Open Scope N_scope.
 (* The full statement: for every configuration with connection callbacks and every sequence of operations (connect
    requests, connection events with any number of any PDUs, missed events, disconnect(), API calls) the lifecycle monitor
    accepts: per connection  requested ( attempt_timeout | established info* closed ),  each once, nothing unrequested,
-   requested / established / closed reported in the operation in which the link starts / has its first event / ends. *)
+   requested / established / closed reported in the operation in which the link starts / has its first event / ends,
+   closed with a reason that is a cause of the end of THIS connection as far as the trace shows it (closed_reason:
+   0x08 resp. the reason of disconnect() once it was called; 0x22 if a procedure response timer may run; in a connection
+   event also 0x28 after an instant based PDU and the error code of a delivered LL_TERMINATE_IND). *)
 Definition C29_lifecycle_full : Prop := lifecycle_full.
 
 (* It is FALSE of the code as it is: *)
@@ -77,8 +80,21 @@ Proof. exact session29_callbacks. Qed.
 Example C29_monitor_rejects_closed_twice :
   fst (mrun29 cfg29 (minit29 cfg29)
          [(connect29, OItems [ICe 1 2 3 4; ICb (EvRequested (mk_details 24 0 72 150))]); (Ev 0 [], OItems [ICb (EvEstablished (mk_details 24 0 72 150))]);
-          (Ev 0 [], OItems [IAdv 37; ICb (EvClosed 19); ICb (EvClosed 19)])]) = Bad 2.
+          (Ev 0 [terminate_ind], OItems [IAdv 37; ICb (EvClosed 19); ICb (EvClosed 19)])]) = Bad 2.
 Proof. exact monitor29_rejects_closed_twice. Qed.
+(* closed_reason: two connections in one history; the first is ended by LL_TERMINATE_IND( 0x13 ), the second by the
+   supervision timeout - reported with the stale 0x13 the trace is rejected, with 0x08 it is accepted *)
+Example C29_monitor_rejects_stale_reason : fst (mrun29 cfg29 (minit29 cfg29) (two_connections 19)) = Bad 9.
+Proof. exact monitor29_rejects_stale_reason. Qed.
+Example C29_monitor_accepts_proper_reason : fst (mrun29 cfg29 (minit29 cfg29) (two_connections 8)) = Ok.
+Proof. exact monitor29_accepts_proper_reason. Qed.
+(* the model: four connections in one history, four causes (LL_TERMINATE_IND 0x13, disconnect( 0x3b ), instant passed,
+   supervision timeout), each closed with its own reason, accepted *)
+Example C29_model_reports_the_cause_of_each_connection :
+  flat_map (fun x => match snd x with OItems it => flat_map (fun i => match i with ICb (EvClosed r) => [r] | _ => [] end) it | _ => [] end)
+           (lrun cfg29 (linit cfg29) session29_reasons) = [19; 59; 40; 8]
+  /\ fst (mrun29 cfg29 (minit29 cfg29) (lrun cfg29 (linit cfg29) session29_reasons)) = Ok.
+Proof. exact session29_reasons_closed. Qed.
 Example C29_monitor_rejects_unrequested :
   fst (mrun29 cfg29 (minit29 cfg29) [(Ev 0 [], OItems [ICb (EvChanged (mk_details 24 0 72 150))])]) = Bad 4.
 Proof. exact monitor29_rejects_unrequested. Qed.
@@ -118,3 +134,8 @@ Print Assumptions C29_ring_refuses_only_when_full.
 (* ---- the constant read from connection_callbacks.hpp on every run *)
 Example C29_ring_size : GenLL.max_events = 4.
 Proof. reflexivity. Qed.
+(* ---- the reasons read from link_layer.hpp on every run = the monitor's specification constants (Core Vol 1 Part F) *)
+Example C29_reasons_are_the_specifications :
+  GenLL.connection_timeout = 8 /\ GenLL.connection_terminated_by_local_host = 22
+  /\ GenLL.connection_ll_response_timeout = 34 /\ GenLL.connection_instant_passed = 40.
+Proof. repeat split; reflexivity. Qed.
